@@ -6,5 +6,5 @@ namespace Scenic.Gen
 def chooseConfig : Scenic.Choose.Config :=
   { defaultWeight := 1, shortcutLen := 1, shortcutIdx := 0, dropZero := true }
 /-- functions whose statement-by-statement shape matched the model's template on this run (informational) -/
-def chooseMatchedShapes : List String := ["Invocable._invokeSubBehavior", "Invocable._isEnabledForAgent", "Options.__init__", "Options.makeSelector", "DiscreteRange.__init__", "DiscreteRange.sampleGiven", "MultiplexerDistribution.sampleGiven", "Distribution.__new__", "visit_DoChoose", "visit_DoShuffle", "makeDoLike"]
+def chooseMatchedShapes : List String := ["Invocable._isEnabledForAgent", "Options.__init__", "Options.makeSelector", "DiscreteRange.__init__", "DiscreteRange.sampleGiven", "Distribution.__new__", "visit_DoChoose", "visit_DoShuffle", "makeDoLike"]
 end Scenic.Gen
